@@ -1197,6 +1197,52 @@ def corpus(r):
                 if kind in ("delta", "joint"):
                     g.emit({"op": "reduce_real", "fn": "logaddexp", "a": ind, "vars": ["x"]})
         out.append((g.program, "log"))
+    # 16. Align terms that survive eager evaluation (aligned expressions with a free real variable) on
+    #     either side of non-commutative operations
+    for fam, fns in (("ring", ["sub"]), ("tropical", ["truediv", "sub"])):
+        g = Gen(r, family=fam, max_event=0, real_vars=True)
+        t, w = T(g, ["i", "j"]), T(g, ["j"])
+        xv = g.emit({"op": "var", "name": "x", "domain": ["real"]})
+        e = g.emit({"op": "binary", "fn": "mul", "a": t, "b": xv}) if t and xv else None
+        al = g.emit({"op": "align", "a": e, "names": ["x", "j", "i"]}) if e else None
+        if al and w:
+            for fn in fns:
+                g.emit({"op": "binary", "fn": fn, "a": w, "b": al})
+                g.emit({"op": "binary", "fn": fn, "a": al, "b": w})
+                g.emit({"op": "binary", "fn": fn, "a": al, "b": al})
+            for rt in g.program[-6:]:
+                val = g.emit({"op": "tensor", "inputs": [], "shape": [], "dtype": "float", "data": g.data(g.fam["data"], 1)})
+                if val and rt["op"] == "binary":
+                    g.emit({"op": "subs", "a": rt["out"], "subs": [["x", ["val", val]]]})
+        out.append((g.program, fam))
+    # 17. indexing a tensor by an index tensor that has the same inputs in another order (equal sizes)
+    g = Gen(r, family="ring", sizes={"i": 3, "j": 3, "k": 2, "l": 3}, max_event=1, real_vars=False)
+    x = g.emit({"op": "tensor", "inputs": [["i", 3], ["j", 3]], "shape": [3, 3, 4], "dtype": "float", "data": g.data("real", 36)})
+    for names in (["j", "i"], ["i", "j"], ["j"], ["j", "l"]):
+        y = g.emit({"op": "tensor", "inputs": [[n, 3] for n in names], "shape": [3] * len(names), "dtype": "int:4", "data": [r.randrange(4) for _ in range(3 ** len(names))]})
+        if x and y:
+            g.emit({"op": "getitem", "a": x, "index": ["val", y]})
+    out.append((g.program, "ring"))
+    # 15. nested reductions (normalize fuses them into one contraction), then a substitution whose value
+    #     mentions the user-level name of a variable that was reduced away
+    for fam, red, prod in (("ring", "add", "mul"), ("log", "logaddexp", "add")):
+        g = Gen(r, family=fam, sizes={"i": 2, "j": 3, "k": 3, "l": 2}, max_event=0, real_vars=False)
+        x, y = T(g, ["i", "j", "k"]), T(g, ["j", "k"])
+        xy = g.emit({"op": "binary", "fn": prod, "a": x, "b": y}) if x and y else None
+        r1 = g.emit({"op": "reduce", "fn": red, "a": xy, "vars": [["i", 2]]}) if xy else None
+        r2 = g.emit({"op": "reduce", "fn": red, "a": r1, "vars": [["j", 3]]}) if r1 else None
+        if r2:
+            g.emit({"op": "subs", "a": r2, "subs": [["k", ["name", "j"]]]})
+            idx = g.emit({"op": "tensor", "inputs": [["j", 3]], "shape": [3], "dtype": "int:3", "data": [r.randrange(3) for _ in range(3)]})
+            if idx:
+                g.emit({"op": "subs", "a": r2, "subs": [["k", ["val", idx]]]})
+            vj = g.emit({"op": "var", "name": "j", "domain": ["bint", 3]})
+            if vj:
+                g.emit({"op": "subs", "a": r2, "subs": [["k", ["val", vj]]]})
+            z = T(g, ["j"])
+            if z:
+                g.emit({"op": "binary", "fn": prod, "a": r2, "b": z})
+        out.append((g.program, fam))
     # 14. a Gaussian integrated against a Gaussian integrand over the same real inputs listed in another order
     g = Gen(r, family="log", max_event=0, real_vars=False)
     reals = [["x", []], ["y", [2]]] if r.random() < 0.5 else [["x", []], ["z", []]]
